@@ -8,7 +8,7 @@
    tensors have any number of leading tensor-product axes and any trailing (component) axes. *)
 From Coq Require Import QArith Qcanon List Arith.
 From Verif.lib Require Import Bsp.
-From Verif.C17 Require Import Model Spec Proofs ProofsGrev.
+From Verif.C17 Require Import Model Spec Proofs ProofsGrev ProofsGrid.
 Import ListNotations.
 Open Scope Qc_scope.
 
@@ -203,11 +203,100 @@ Print Assumptions hspace_l2_orthogonal_partial.
    exactly (data polynomial on every cell of that level), and is false for data with finer-level
    kinks -- the open finding impl:hspace:load-vector-own-level-quadrature. *)
 
-(* NOT PROVED (kept as statements only):
-   - the hierarchical conjunct for the load vector the code assembles (see the note after the
-     hspace _partial theorems above).
-   - Schoenberg-Whitney for degree >= 2 (the Greville points of every open knot vector are unisolvent:
-     needs total positivity of the collocation matrix); proved: the necessary condition for every
-     degree and unisolvence for degree <= 1; degree >= 2 is checked per case by the exact inverse
-     (Examples.v, tie).
-   - convergence of CG: outside the model. *)
+(* ---- data known only on the node grid; tensor-grid unisolvence; component selection -------- *)
+(* cols_are nshape Ss: S_k has nshape_k columns (the number of nodes of axis k) *)
+
+(* Interpolation reproduces a function of the space from data that agree with it ON THE NODE GRID
+   only -- the situation of approx.interpolate (value array, or f evaluated at the nodes). *)
+Theorem interp_reproduces_on_grid : forall shape nshape Ss Cs c rhs idx,
+  length Ss = length Cs -> Forall2 is_id shape (mul_list Ss Cs) -> cols_are nshape Ss ->
+  (forall j, inrange nshape j -> length j = length idx -> rhs j = tprod Cs c j) ->
+  inrange shape idx -> (length Ss <= length idx)%nat ->
+  tprod_loop Ss rhs idx = c idx.
+Proof. exact interp_reproduces_on_grid_l. Qed.
+Print Assumptions interp_reproduces_on_grid.
+
+(* A tensor grid is unisolvent as soon as every axis is: with per-axis left inverses S_k C_k = I
+   (the Kronecker product of the S_k inverts the Kronecker product of the C_k), two splines with
+   equal values on the tensor node grid have equal coefficients, any dimension / trailing axes ... *)
+Theorem tensor_grid_unisolvent : forall shape nshape Ss Cs c c' idx,
+  length Ss = length Cs -> Forall2 is_id shape (mul_list Ss Cs) -> cols_are nshape Ss ->
+  (forall j, inrange nshape j -> length j = length idx -> tprod Cs c j = tprod Cs c' j) ->
+  inrange shape idx -> (length Ss <= length idx)%nat ->
+  c idx = c' idx.
+Proof. exact tensor_grid_unisolvent_l. Qed.
+Print Assumptions tensor_grid_unisolvent.
+
+(* ... in particular a spline vanishing on the whole node grid is zero. *)
+Theorem tensor_grid_kernel_trivial : forall shape nshape Ss Cs c idx,
+  length Ss = length Cs -> Forall2 is_id shape (mul_list Ss Cs) -> cols_are nshape Ss ->
+  (forall j, inrange nshape j -> length j = length idx -> tprod Cs c j = 0) ->
+  inrange shape idx -> (length Ss <= length idx)%nat ->
+  c idx = 0.
+Proof. exact tensor_grid_kernel_trivial_l. Qed.
+Print Assumptions tensor_grid_kernel_trivial.
+
+(* Component selection commutes with the whole interpolation pipeline for FUNCTION data of any
+   value shape (utils.grid_eval + _ensure_grid_shape + apply_tprod): entry [i, t] of
+   interpolate(kvs, f) is entry [i] of interpolate(kvs, f_t), f_t = component t of f ... *)
+Theorem interp_component_selection : forall Ss f grid i t,
+  length i = length Ss -> length grid = length Ss ->
+  tprod_loop Ss (grid_eval f grid) (i ++ t) = tprod_loop Ss (grid_eval (select f t) grid) i.
+Proof. exact interp_component_selection_l. Qed.
+Print Assumptions interp_component_selection.
+
+(* ... also for data in physical coordinates, where it is the pull-back of the component. *)
+Theorem interp_component_selection_physical : forall Ss f grid geo i t,
+  length i = length Ss -> length grid = length Ss ->
+  tprod_loop Ss (grid_eval_transformed f grid geo) (i ++ t)
+  = tprod_loop Ss (grid_eval (compose (select f t) geo) grid) i.
+Proof. exact interp_component_selection_physical_l. Qed.
+Print Assumptions interp_component_selection_physical.
+
+(* The Kronecker L2 path (no geometry) treats array-valued data component-wise as well. *)
+Theorem l2_kron_componentwise : forall Ss Cts Ds F i t,
+  length i = length Ss -> length i = length Cts -> length i = length Ds ->
+  tprod_loop Ss (tprod_loop Cts (tprod_loop Ds F)) (i ++ t)
+  = tprod_loop Ss (tprod_loop Cts (tprod_loop Ds (fun i' => F (i' ++ t)))) i.
+Proof. exact l2_kron_componentwise_l. Qed.
+Print Assumptions l2_kron_componentwise.
+
+(* One axis (bspline.interpolate, bspline.project_L2: one sparse solve applied to the nodal values
+   resp. the load vector) is the one-operator instance: a matrix-vector product along axis 0, so
+   every theorem above specialises to the 1D routines. *)
+Theorem apply_tprod_1d : forall S f i t,
+  tprod_loop [S] f (i :: t) = sumn (oc S) (fun j => oe S i j * f (j :: t)).
+Proof. exact apply_tprod_1d_l. Qed.
+Print Assumptions apply_tprod_1d.
+
+(* WHAT REMAINS WITHOUT A THEOREM, clause by clause of the property text:
+   "for every spline space (tensor product of any dimension, or hierarchical) and geometry":
+     tensor product, any dimension: theorems above.  Hierarchical (the hspace theorems): the assembled matrix/vector
+     are only HYPOTHESES of the two _partial theorems; that _hdiscr.assemble_functional returns P^T b_f
+     is false for data with finer-level kinks (open finding), see the note after them.  Geometry enters
+     only as the weight w = quadrature weight * |det J| > 0: no model of geometry maps here (C07).
+   "interpolation reproduces every function of the space ... default Greville points":
+     proved given S_k C_k = I.  That the Greville points of an open knot vector make C_k invertible
+     (Schoenberg-Whitney) is proved for degree <= 1 (greville_unisolvent_p01) and as the necessary
+     condition for every degree (greville_satisfies_sw_necessary); degree >= 2 NOT PROVED (total
+     positivity), decided per case by the exact inverse in Examples.v and in the tie.
+   "or any other unisolvent tensor grid": interp_reproduces_on_grid, tensor_grid_unisolvent (from
+     per-axis unisolvence, which is the hypothesis).
+   "and matches the given data at the nodes": interp_matches_nodes (given C_k S_k = I).
+   "L2 projection reproduces every function of the space": l2_reproduces / l2_projection_is_projection /
+     l2_kron_reproduces, for an EXACT solve of the Gram system; that scipy CG reaches the solution within
+     its iteration cap is NOT modelled (the residual check of the tie decides it), nor are SuperLU/LAPACK
+     (contract).  That assemble.mass / inner_products compute massq / loadq with Gauss nodes: the
+     Kronecker structure is proved (l2_kron_reproduces, l2_kron_componentwise), the Gauss rule itself (irrational nodes, exactness for
+     degree 2p+1) has no model: oracle only.
+   "its residual is orthogonal ... geometry-weighted L2 inner product": l2_residual_orthogonal (discrete
+     inner product of the quadrature rule; the continuous inner product only when the rule is exact).
+   "scalar, vector and array-valued data (functions or precomputed value arrays) component-wise":
+     data_componentwise (arrays), interp_component_selection(_physical) (functions), l2_kron_componentwise;
+     project_L2 with geometry refuses non-scalar data (compared exactly by the tie), no theorem needed.
+   "data given in physical coordinates are handled identically to their pull-backs":
+     physical_equals_pullback, interp_component_selection_physical; for project_L2 (f_physical) the
+     evaluation of f at geo(quadrature points) is NOT modelled (oracle only).
+   Floating point: every theorem is over exact rationals; the rounding bounds of the tie are derived in
+   harness/props/c17.py, not proved. *)
+
